@@ -227,7 +227,10 @@ def _history_violations(inp, outp):
                         res.append(('ctl-honour-history', prefix, 'every packet honours the settings in force', 'toc=%s' % f[4],
                                     'a packet produced by opus_encode contradicts the settings the encoder reported before '
                                     'the call: ' + why))
-                    since_mono = since_mono + 1 if pc[2] == '1' else 0
+                    if pc[2] != '1':
+                        since_mono = 0
+                    elif int(f[2]) > 0:          # only calls that produced a packet count towards 'within three packets'
+                        since_mono += 1
             else:
                 nc = snap.split(',')
                 if pc[2] != '1' and nc[2] == '1':
